@@ -1,6 +1,8 @@
 // C02 (+ inbound decoder half of C06): runs RawPanelASCIIstringsToInboundMessages under
 // recover() and prints (c02 (entry ...) obs).
-//   entry ::= (l #line) | (js #line state) | (jm #line (msg|nil ...)) | (nc #line nil|#cfg)
+//
+//	entry ::= (l #line) | (js #line state) | (jm #line (msg|nil ...)) | (nc #line nil|#cfg)
+//
 // the extra element is the answer of the encoding/json oracle for that line (computed here
 // with the same calls the library makes); obs = panic | (msg|nil ...).
 package main
